@@ -38,7 +38,6 @@ from ampform.dynamics.builder import (
 from ampform.helicity.align import NoAlignment, SpinAlignment
 from ampform.helicity.decay import (
     TwoBodyDecay,
-    get_prefactor,
     group_by_spin_projection,
     group_by_topology,
 )
@@ -591,7 +590,7 @@ class HelicityAmplitudeBuilder:
             node_prefactor = transition.interactions[node_id].parity_prefactor
             if node_prefactor is not None:
                 prefactor *= node_prefactor
-        if is_parity_partner and get_prefactor(transition) != 1.0:
+        if is_parity_partner and prefactor != 1.0:
             return sp.Rational(prefactor)
         return None
 
